@@ -99,3 +99,45 @@ func forceCloseRaceExperiment(d time.Duration) (int, int) {
 	}
 	return trials, hits
 }
+
+// closeDeadlockExperiment: Get holds Cache.mu.RLock for its whole duration; when its Promote evicts another
+// node, the lru handle's Release runs unRefExternal, which (count 0) takes Cache.mu.RLock AGAIN.  sync.RWMutex
+// forbids recursive read locking: if Close is waiting in Lock between the two, both block forever.
+// Returns (trials, deadlocks).  A deadlocked trial leaks its goroutines.
+func closeDeadlockExperiment(d time.Duration) (int, int) {
+	deadline := time.Now().Add(d)
+	trials, hits := 0, 0
+	for time.Now().Before(deadline) && hits < 3 {
+		trials++
+		c := cache.NewCache(cache.NewLRU(1))
+		done := make(chan struct{}, 2)
+		go func() {
+			for k := uint64(0); k < 200; k++ {
+				if h := c.Get(0, k, func() (int, cache.Value) { return 1, &rval{} }); h != nil {
+					h.Release()
+				}
+			}
+			done <- struct{}{}
+		}()
+		go func() {
+			for i := 0; i < trials%50; i++ {
+				runtime.Gosched()
+			}
+			c.Close(false)
+			done <- struct{}{}
+		}()
+		ok := 0
+		timeout := time.After(2 * time.Second)
+	wait:
+		for ok < 2 {
+			select {
+			case <-done:
+				ok++
+			case <-timeout:
+				hits++
+				break wait
+			}
+		}
+	}
+	return trials, hits
+}
